@@ -239,6 +239,7 @@ let with_schema (case : string) (f : ctx -> string -> 'a) : 'a =
      OOB <site>               any other memory-error site of the codec model
      UB fast_atoi             UBSan site in fast_atoi<int> (message otherwise accepted)
      UB datetime              UBSan site in parse_decimal / time_to_epoch (field.hpp)
+     CRASH pseudo-msgtype     35=header / 35=trailer: factory decodes into an object that is not a Message
      UB calc_chksum           misaligned uint32 load in calc_chksum (CHKSUM op only)
      HANG                     decode_group without progress (repaired: a0d41df)
    Oracle (Spec_C03): c03_ok (obs_of_word <first word>) -- OK or EXC. *)
@@ -269,6 +270,7 @@ let string_of_dclass (c : ctx) (d : dclass) : string =
   | DHang -> "HANG"
   | DUb -> "UB fast_atoi"
   | DUbDate -> "UB datetime"
+  | DPseudo -> "CRASH pseudo-msgtype"
   | DFuel -> "MODEL-FUEL"
 let string_of_eclass (e : eclass) : string =
   match e with
